@@ -407,9 +407,18 @@ func TestC06RaceShort(t *testing.T) {
 	defer m.Finish()
 	m.Rule("one hnet history of 36 blocks with the traffic of the chain stage, built with -race: every block is executed by the live node, every sixth block re-executed on three cold twins under GOMAXPROCS 1/2/16 with PRNG delays at the trimming goroutines; race reports whose stacks touch the property's anchor files are violations; distinct = block hashes")
 	m.Assume("protocol timeline and TrimDepths compressed", "single live slice")
-	history(m, m.Rand("race-history"), 0, m.N(36, 36), 6, nil)
+	// chains are not reproducible (pending headers carry the wall clock): how many blocks see two or
+	// more trimming goroutines at work varies; extend the exploration until enough of them were seen
+	concurrent := func() int64 {
+		return m.Seen("trimming-goroutines-with-deletions:2") + m.Seen("trimming-goroutines-with-deletions:3+")
+	}
+	r := m.Rand("race-history")
+	for h := 0; h < 4 && (h == 0 || concurrent() < 3) && m.Violations() == 0; h++ {
+		history(m, r, h, m.N(36, 36), 6, nil)
+		m.AddExtra("race_histories_run", 1)
+	}
 	m.Floor(30, 5)
-	if m.Seen("trimming-goroutines-with-deletions:2")+m.Seen("trimming-goroutines-with-deletions:3+") == 0 {
+	if concurrent() == 0 {
 		m.Inconclusive("no block in which two or more trimming goroutines deleted outputs")
 	}
 }
